@@ -1,4 +1,5 @@
 import Zlink.Proofs.ServerFair
+import Zlink.Proofs.ServerQuiet
 /-! # C18 — Round-robin service: a flooding client cannot starve the others
 
 Models: `Zlink/Model/Select.lean` (`server/select_all.rs`: the rotated scan) and the server loop's use of it
@@ -21,6 +22,18 @@ theorem C18_scan_is_select (C : Rx.Consts) (sizes : Nat → Nat) (start : Nat) (
       selectAll cs.length (some start) (Srv.readyOf C sizes cs) := by
   rw [Srv.scanCalls_winner C sizes cs.length start hn cs cs.length (Nat.le_refl _) cs rfl (fun _ _ _ => rfl)]
   simp [selectAll, Nat.ne_of_gt hn]
+
+/-- **The server loop follows that rotation**: with nothing to accept, one iteration of `Server::run` serves
+    exactly the connection `SelectAll` picks when started right after the previous winner and records it as
+    the new previous winner, whatever else the iteration does with it (reply, error, drop, hand-over to a
+    reply stream); when no connection is ready the previous winner is kept. So the sequence of connections
+    the server serves is the `winners` sequence the fairness theorems below speak about. -/
+theorem C18_server_rotation (C : Rx.Consts) (sizes : Nat → Nat) (s s' : Srv.S) (hq : s.listenQ = [])
+    (hn : 0 < s.conns.length) (h : Srv.iter C sizes s = some s') :
+    match selectAll s.conns.length (some (Srv.nextStart s)) (Srv.readyOf C sizes s.conns) with
+    | some w => s'.lastCall = some w
+    | none => s'.lastCall = s.lastCall :=
+  Srv.iter_rotation C sizes s s' hq hn h
 
 /-- **C18, first sentence (full statement for an unchanged connection set).** Consider any sequence of
     consecutive scans over the same `n` connections, each starting right after the previous winner, from
